@@ -4,6 +4,10 @@ import SqlProofs.LexDollar
 import SqlProofs.LexScan
 import SqlProofs.LexWords
 import SqlProofs.LexDictWords
+import SqlProofs.LexDedicatedWords
+import SqlProofs.LexDeadEntries
+import SqlProofs.LexTwoWords
+import SqlProofs.LexRule16
 /-!
 # C14 — opaque regions are one token (character level)
 
@@ -26,6 +30,32 @@ Vocabulary (defined in SqlProofs/Lex/Basic.lean and SqlProofs/Lex/Comments.lean)
 * `LineOpen op` — `op` is `--` or `# `;
 * `DollarTag tag` — `tag` is empty, or one character of `[_A-ZÀ-Ü]` (case-insensitively) followed by `\w` characters.
 -/
+/-!
+## Hypotheses audit (C14) — every hypothesis that restricts the input, why, and an excluded input with the real lexer's behaviour
+
+Regions (`block_comment` … `dollar_quoted`; the same hypotheses are bundled in `Region`, used by C05):
+* `body.head? ≠ some 43` (comments): a body starting with `+` makes it a *hint* comment. `/*+x*/` → `Comment.Multiline.Hint`, `--+x⏎` → `Comment.Single.Hint`.
+* `¬ [42,47] <:+: body` (block comments): the token ends at the first `*/`. `/*a*/b*/` → `/*a*/`, then `b`, `*`, `/`.
+* `∀ c ∈ body, c ≤ 1114111`: model artefact — `Cp` is `Nat`, the classes `[\s\S]`, `.`, `[^']` are generated as ranges up to 0x10FFFF. No Python `str` violates it.
+* `∀ c ∈ body, c ≠ 13 ∧ c ≠ 10` (line comments): the comment ends at the first line break. `--a␍b⏎` → `--a␍`, then `b`.
+* `EolCtx close rest`: `close = [13]` needs `rest` not starting with `⏎` (`--a␍⏎b` → token `--a␍⏎`); `close = []` needs `rest = []` (otherwise the comment continues).
+* `LineOpen op`: `# ` needs the blank. `#x⏎` → `Operator #`, `Name x`.
+* `QBody q true body` — units `qq` or one code point other than `q` and `\` (strings): a backslash starts the alternative `\q`, so the region is not the token. `'a\'b' x` → ONE string `'a\'b'`, not `'a\'`.  (`QBody q false` for names allows the backslash: `` `a\` `` is a Name.)
+* `rest.head? ≠ some q`: a following quote continues the literal. `'a''b'` → one string `'a''b'`.
+* dollar: `hlb` (the opening `$` is not preceded by a word character, `"` or `$`): `a$$x$$` → `Name a$$x$$`; `DollarTag tag`: `$1$x$1$` → `Name.Placeholder $1`, `Error $`, `Name x$1$`; `hbody` (the delimiter does not recur, case-insensitively, inside the body): `$a$ x $A$ y $a$` → `Literal $a$ x $A$`, the rest separately.
+Whole-lex statements (`lex_emits_region`, `…_in_output`, `…_in_lex_output`):
+* `ScanBoundary … p`: the region theorems speak about the scan step *at* `p`; if `p` is inside another token no step happens there. `'/*x*/'` → one `String.Single`; position 1 is not a scan position although `firstMatch` at 1 would give a comment.
+Keywords (`dict_word`, `dict_word_any_casing`, `certified_word`, `unlisted_word_is_name`, `dedicated_word…`, `double_precision`):
+* `pre.getLast? ≠ some 46`: after a `.` the rule `(?<=\.)[A-ZÀ-Ü]\w*` makes any word a Name. `x.select;` → `Name select`; `.double precision` → `Name double`, `Keyword precision`.  NOT needed for `kw16_word` (their rule comes first): `x.in(1)` → `Keyword in`.
+* `WordDelim c`, four clauses: (1) `c ∉ [$#\w]` — maximal munch: `selectx;` → `Name selectx`; `inx;` → `Name inx`. (2) `c` not whitespace — multi-word rules and `(?=\s*\.)` look past blanks: `order  by;` → ONE `Keyword 'order  by'`, `not null;` → one Keyword, `select .x` → `Name select`; needed uniformly, though not for every word (it is dropped for `kw16_word`, whose rule has only `\b`). (3) `c ≠ (` — `[A-ZÀ-Ü]\w*(?=\()` comes before the word rule and before every dedicated rule except the first: `select(1)` → `Name select`, `like(x)` → `Name like`; but `in(1)` → `Keyword in` (`kw16_word`). (4) `c ≠ .` — `select.x` → `Name select`, `join.x` → `Name join`.
+* `WordDelim2 c` adds `c ≠ '`: needed only for `WITH` (`with' time zone 'x'` → one `Keyword.TZCast`); `dedicated_word_plain` drops it for the other thirteen words (`like';` → `Operator.Comparison like`, `Error '`).
+* `wordCert w` / `w ∉ uncertified` / membership in `dedicatedWords`, `kw16Words`: decidable side conditions, discharged by evaluation over the generated tables; the excluded words are exactly those treated by the other theorems.
+* `double_precision`: `tail` empty or starting with a non-word character is the rule's `\b`: `double precisionx` → `Keyword double`, `Name precisionx`.
+* `dictsLookup (pyUpper w) Gen.dicts = none` (`unlisted_word_is_name`): stated with `str.upper()`, so non-ASCII spellings are classified as CPython does — `ſelect` is `Keyword.DML`, not a Name.
+Dropped in this round: the ASCII hypotheses of `keyword_case_invariant` (two texts equal up to ASCII case may contain any other code points).
+No input restriction: `keyword_case_invariant`, `word_cert_case`, `word_rule_munch` (its hypotheses describe the run), `dead_dictionary_entries`, `boundary_*`, all table obligations.
+-/
+
 namespace Sql.C14
 
 /-- **block comment.** `/*body*/` with a body that does not start with `+` and does not contain `*/` is one `Comment.Multiline` token. -/
@@ -161,11 +191,11 @@ Vocabulary (SqlProofs/LexWords.lean, SqlProofs/LexDictWords.lean): `asciiFold` =
 `WordDelim c` = `c` is not in `[$#\w]`, not `str.isspace`, not `(` and not `.`; `dictWords` = all keys of the generated keyword dictionaries;
 `uncertified` = the 19 entries listed there (words with a dedicated earlier rule, `WITH`, and four entries that are not single words). -/
 
-/-- **case invariance.** `Lexer.is_keyword` gives the same token type to two ASCII texts that differ only in the case of ASCII letters
-(`str.upper` on ASCII is checked against the generated table, all 128 entries). -/
-theorem keyword_case_invariant (w w' : Text) (hw : ∀ c ∈ w, c < 128) (hw' : ∀ c ∈ w', c < 128)
+/-- **case invariance.** `Lexer.is_keyword` gives the same token type to two texts that differ only in the case of ASCII letters (other
+code points allowed, identical in both; `str.upper` on ASCII is checked against the generated table, all 128 entries). -/
+theorem keyword_case_invariant (w w' : Text)
     (h : w'.map asciiFold = w.map asciiFold) : isKeyword defaultCfg w' = isKeyword defaultCfg w :=
-  isKeyword_case_invariant w w' hw hw' h
+  isKeyword_case_invariant w w' h
 
 /-- table obligation: the generic word rule `\w[$#\w]*` with action `PROCESS_AS_KEYWORD` is in the table -/
 theorem word_rule_present : defaultCfg.rules.contains wordRule = true := word_rule_in_table
@@ -239,6 +269,120 @@ theorem dedicated_rule_words :
       decide (firstMatch (defaultCfg.env (txt e.1 ++ [59]).toArray) defaultCfg.rules 0 = some (e.2.1, e.2.2))) = true :=
   dedicated_rules
 
+/-! ## the remaining dictionary entries: dedicated rules, `WITH`, and the dead keys
+
+`dedCert w` (SqlProofs/LexDedicated.lean) computes from the generated table the action of the first rule that can match `w` before a
+delimiter and the end of its first derivation (exactly, `aexact`); `WordDelim2 c` = `WordDelim c` and `c` is not `'`. -/
+
+/-- table obligation (evaluated): for each of the fourteen single-word entries not covered by `dict_word`, the rule that takes it and that
+its first match is the whole word -/
+theorem dedicated_table :
+    (dedicatedWords.all fun e => wordShape (txt e.1) && (dedCert (txt e.1) == some (e.2, (txt e.1).length))) = true :=
+  dedicated_cert
+
+/-- **words taken by a dedicated rule, in every casing** (universal in text, position, delimiter, casing): `CASE IN VALUES USING FROM AS`
+(rule `(CASE|IN|…)\b`), `JOIN`, `END`, `CREATE`, `LIKE ILIKE RLIKE`, `REGEXP` — and `WITH`, taken by the word rule once the delimiter is
+not `'`: one scan step with the listed action over exactly the spelling `w'`. -/
+theorem dedicated_word (name : String) (act : Action) (hmem : (name, act) ∈ dedicatedWords)
+    (s : Array Cp) (p : Nat) (pre w' rest : List Cp) (c : Cp)
+    (hcase : w'.map asciiFold = (txt name).map asciiFold)
+    (h : s.toList = pre ++ w' ++ c :: rest) (hp : pre.length = p) (hprev : pre.getLast? ≠ some 46) (hc : WordDelim2 c) :
+    firstMatch (defaultCfg.env s) defaultCfg.rules p = some (act, p + w'.length) :=
+  dedicated_word_any_casing name act hmem s p pre w' rest c hcase h hp hprev hc
+
+/-- the same with the plain delimiter condition `WordDelim` (a following `'` allowed), for every listed word except `WITH`
+(`WITH'` starts the rule `(AT|WITH')\s+TIME\s+ZONE…`) -/
+theorem dedicated_word_plain (name : String) (act : Action) (hmem : (name, act) ∈ dedicatedWords) (hne : name ≠ "WITH")
+    (s : Array Cp) (p : Nat) (pre w' rest : List Cp) (c : Cp)
+    (hcase : w'.map asciiFold = (txt name).map asciiFold)
+    (h : s.toList = pre ++ w' ++ c :: rest) (hp : pre.length = p) (hprev : pre.getLast? ≠ some 46) (hc : WordDelim c) :
+    firstMatch (defaultCfg.env s) defaultCfg.rules p = some (act, p + w'.length) :=
+  dedicated_word_any_casing1 name act hmem hne s p pre w' rest c hcase h hp hprev hc
+
+/-- **`CASE IN VALUES USING FROM AS` in their true context**: their rule `(CASE|IN|VALUES|USING|FROM|AS)\b` precedes every rule with a
+look-around, so: every casing, after anything (also right after `.`), before any character that is not a word character — a blank, `(`,
+`.`, `'`, `;` … (the rule's own `\b`): one `Keyword` token over exactly the word. -/
+theorem kw16_word (name : String) (hmem : name ∈ kw16Words) (s : Array Cp) (p : Nat) (pre w' rest : List Cp) (c : Cp)
+    (hcase : w'.map asciiFold = (txt name).map asciiFold)
+    (h : s.toList = pre ++ w' ++ c :: rest) (hp : pre.length = p) (hc : Gen.wordSet.mem c = false) :
+    firstMatch (defaultCfg.env s) defaultCfg.rules p = some (.tok T.Keyword, p + w'.length) :=
+  kw16_word_any_casing name hmem s p pre w' rest c hcase h hp hc
+
+/-- **the multi-word key `DOUBLE PRECISION`** (rule `DOUBLE\s+PRECISION\b`, located by content, `double_precision_rule_first`): every
+casing of both words, any non-empty run of `str.isspace` characters between them, not right after a `.`, followed by the end of the text or
+a non-word character: ONE token covering `DOUBLE<whitespace>PRECISION`, of the rule's type `Name.Builtin` (the dictionary says `Keyword`;
+that entry is dead, `dead_dictionary_entries`). -/
+theorem double_precision (s : Array Cp) (p : Nat) (pre w1 ws w2 tail : List Cp)
+    (h : s.toList = pre ++ w1 ++ ws ++ w2 ++ tail) (hp : pre.length = p) (hprev : pre.getLast? ≠ some 46)
+    (hw1 : w1.map asciiFold = (txt "DOUBLE").map asciiFold) (hw2 : w2.map asciiFold = (txt "PRECISION").map asciiFold)
+    (hws : ws ≠ []) (hsp : ∀ y ∈ ws, isSpace y = true)
+    (htail : ∀ y, tail.head? = some y → Gen.wordSet.mem y = false) :
+    firstMatch (defaultCfg.env s) defaultCfg.rules p = some (.tok T.Builtin, p + w1.length + ws.length + w2.length) :=
+  double_precision_token s p pre w1 ws w2 tail h hp hprev hw1 hw2 hws hsp htail
+
+/-- … as one token of the output of `lex`, of the type listed in `word_types` -/
+theorem dedicated_word_in_lex_output (name : String) (act : Action) (hmem : (name, act) ∈ dedicatedWords)
+    (s : Array Cp) (p : Nat) (pre w' rest : List Cp) (c : Cp)
+    (hcase : w'.map asciiFold = (txt name).map asciiFold)
+    (h : s.toList = pre ++ w' ++ c :: rest) (hp : pre.length = p) (hprev : pre.getLast? ≠ some 46) (hc : WordDelim2 c)
+    (hb : ScanBoundary defaultCfg (defaultCfg.env s) p) :
+    ∃ ts before after, lex defaultCfg s = .ok ts ∧
+      ts = before ++ ⟨tokType defaultCfg act (txt name), w'⟩ :: after ∧
+      textLen before = p ∧ ScanBoundary defaultCfg (defaultCfg.env s) (p + w'.length) :=
+  dedicated_word_in_output name act hmem s p pre w' rest c hcase h hp hprev hc hb
+
+/-- **which type each of these words gets** `(word, type emitted, type of the first dictionary listing it)`: they differ exactly for
+`LIKE`, `ILIKE`, `RLIKE`, `REGEXP` (dedicated rule: `Operator.Comparison`; dictionary: `Keyword`) — for those the clause "or by an earlier
+dedicated lexical rule" of the property is what applies -/
+theorem word_types :
+    dedicatedWords.map (fun e => (e.1, tokType defaultCfg e.2 (txt e.1), isKeyword defaultCfg (txt e.1))) =
+      [("CREATE", T.DDL, T.DDL), ("FROM", T.Keyword, T.Keyword), ("JOIN", T.Keyword, T.Keyword),
+       ("LIKE", T.Comparison, T.Keyword), ("IN", T.Keyword, T.Keyword), ("END", T.Keyword, T.Keyword),
+       ("AS", T.Keyword, T.Keyword), ("CASE", T.Keyword, T.Keyword), ("REGEXP", T.Comparison, T.Keyword),
+       ("RLIKE", T.Comparison, T.Keyword), ("ILIKE", T.Comparison, T.Keyword), ("USING", T.Keyword, T.Keyword),
+       ("VALUES", T.Keyword, T.Keyword), ("WITH", T.CTE, T.CTE)] :=
+  dedicated_vs_dictionary
+
+/-- the dictionary keys containing a blank or a hyphen -/
+theorem dead_keys : deadEntries = [txt "BIT VARYING", txt "CHARACTER VARYING", txt "DOUBLE PRECISION", txt "END-EXEC"] :=
+  deadEntries_eq
+
+/-- **KF-C14-1 as a theorem**: for every input, at every scan step whose action is `PROCESS_AS_KEYWORD` — the only place `is_keyword` is
+called (`only_word_rule_is_kw`) — `value.upper()` is none of these keys, because the value consists of `[$#\w]` characters and the
+generated `str.upper` table never produces a blank or a hyphen.  So no input makes the lookup return these entries.  (`DOUBLE PRECISION`
+does occur as a token, through its own rule `DOUBLE\s+PRECISION\b`, with that rule's type `Name.Builtin`, not the dictionary's `Keyword`.) -/
+theorem dead_dictionary_entries (s : Array Cp) (p e : Nat)
+    (h : firstMatch (defaultCfg.env s) defaultCfg.rules p = some (.kw, e)) :
+    ∀ ent ∈ deadEntries, pyUpper (s.extract p e).toList ≠ ent :=
+  dead_entries s p e h
+
+/-! ## a word in no dictionary is a Name -/
+
+/-- the type of a word-rule token is the `str.upper()`-based lookup, `Name` when no dictionary lists `value.upper()` -/
+theorem word_rule_type (w : Text) :
+    isKeyword defaultCfg w = (match dictsLookup (pyUpper w) Gen.dicts with | some t => t | none => T.Name) :=
+  isKeyword_upper w
+
+/-- **a word in no dictionary is a Name**: `w` of word shape that no earlier rule can take (`wordCert w`, decidable; independent of ASCII
+casing by `word_cert_case`) and whose `str.upper()` no dictionary lists, before a delimiter, not right after a `.`, at a scan position:
+the output of `lex` contains exactly the token `⟨Name, w⟩` there.  The lookup is the model of `value.upper()` (`pyUpper`, generated
+table), so non-ASCII casings are handled as CPython does: `ſelect` upper-cases to `SELECT` and is a DML keyword, not a Name (example below;
+the real lexer agrees). -/
+theorem unlisted_word_is_name (s : Array Cp) (p : Nat) (pre w rest : List Cp) (c : Cp)
+    (h : s.toList = pre ++ w ++ c :: rest) (hp : pre.length = p) (hprev : pre.getLast? ≠ some 46) (hc : WordDelim c)
+    (hcert : wordCert w = true) (hnd : dictsLookup (pyUpper w) Gen.dicts = none)
+    (hb : ScanBoundary defaultCfg (defaultCfg.env s) p) :
+    ∃ ts before after, lex defaultCfg s = .ok ts ∧ ts = before ++ ⟨T.Name, w⟩ :: after ∧
+      textLen before = p ∧ ScanBoundary defaultCfg (defaultCfg.env s) (p + w.length) := by
+  have hfm := word_token s p pre w rest c h hp hprev hc hcert
+  obtain ⟨ts, before, after, h1, h2, h3, h4⟩ := lex_emits_act s p .kw _ hb hfm
+  have hv : (s.extract p (p + w.length)).toList = w := extract_region s pre w (c :: rest) p (by simpa using h) hp
+  have hty : tokType defaultCfg .kw w = T.Name := by
+    have hnd' : dictsLookup (upperText strUpper1 w) Gen.dicts = none := hnd
+    simp only [tokType]; rw [isKeyword_upper, hnd']
+  rw [hv, hty] at h2
+  exact ⟨ts, before, after, h1, h2, h3, h4⟩
+
 /-! ## non-vacuity -/
 
 /-- the hypotheses are satisfiable: the string literal `'a;b''c'` inside `x='a;b''c';` instantiates `single_quoted` -/
@@ -286,7 +430,7 @@ example : firstMatch (defaultCfg.env #[120, 32, 83, 69, 76, 69, 67, 84, 59]) def
     rfl rfl (by decide) (by refine ⟨by decide +kernel, by decide +kernel, by decide, by decide⟩)
 
 example : isKeyword defaultCfg [115, 101, 108, 101, 99, 116] = T.DML := by
-  rw [keyword_case_invariant [83, 69, 76, 69, 67, 84] [115, 101, 108, 101, 99, 116] (by decide) (by decide) (by decide)]
+  rw [keyword_case_invariant [83, 69, 76, 69, 67, 84] [115, 101, 108, 101, 99, 116] (by decide)]
   decide +kernel
 
 example : firstMatch (defaultCfg.env #[115, 69, 108, 69, 99, 84, 59]) defaultCfg.rules 0 = some (.kw, 0 + 6) ∧
@@ -294,5 +438,33 @@ example : firstMatch (defaultCfg.env #[115, 69, 108, 69, 99, 84, 59]) defaultCfg
   dict_word_any_casing #[115, 69, 108, 69, 99, 84, 59] 0 [] [83, 69, 76, 69, 67, 84] [115, 69, 108, 69, 99, 84] [] 59
     (by decide +kernel) (by decide +kernel) (by decide) rfl rfl (by decide)
     (by refine ⟨by decide +kernel, by decide +kernel, by decide, by decide⟩)
+
+/-- `foo_1;` instantiates `unlisted_word_is_name` -/
+example : ∃ ts before after, lex defaultCfg #[102, 111, 111, 95, 49, 59] = .ok ts ∧
+    ts = before ++ ⟨T.Name, [102, 111, 111, 95, 49]⟩ :: after ∧ textLen before = 0 ∧
+    ScanBoundary defaultCfg (defaultCfg.env #[102, 111, 111, 95, 49, 59]) (0 + 5) :=
+  unlisted_word_is_name #[102, 111, 111, 95, 49, 59] 0 [] [102, 111, 111, 95, 49] [] 59 rfl rfl (by decide)
+    (by refine ⟨by decide +kernel, by decide +kernel, by decide, by decide⟩) (by decide +kernel) (by decide +kernel)
+    ScanBoundary.zero
+
+/-- `ſelect` (U+017F): certified word whose `str.upper()` is `SELECT`, hence a DML keyword — for the model and for the real lexer -/
+example : wordCert [383, 101, 108, 101, 99, 116] = true ∧ isKeyword defaultCfg [383, 101, 108, 101, 99, 116] = T.DML := by
+  constructor <;> decide +kernel
+
+/-- `like;` / `LiKe;` instantiate `dedicated_word`: a Comparison operator, although the dictionary says Keyword -/
+example : firstMatch (defaultCfg.env #[76, 105, 75, 101, 59]) defaultCfg.rules 0 = some (.tok T.Comparison, 0 + 4) :=
+  dedicated_word "LIKE" (.tok T.Comparison) (by decide) #[76, 105, 75, 101, 59] 0 [] [76, 105, 75, 101] [] 59 (by decide) rfl rfl
+    (by decide) (by refine ⟨⟨by decide +kernel, by decide +kernel, by decide, by decide⟩, by decide⟩)
+
+/-- `x.From(` : right after a `.` and before `(`, still a Keyword (instance of `kw16_word`) -/
+example : firstMatch (defaultCfg.env #[120, 46, 70, 114, 111, 109, 40]) defaultCfg.rules 2 = some (.tok T.Keyword, 2 + 4) :=
+  kw16_word "FROM" (by decide) #[120, 46, 70, 114, 111, 109, 40] 2 [120, 46] [70, 114, 111, 109] [] 40 (by decide) rfl rfl
+    (by decide +kernel)
+
+/-- `Double⇥ precision;` (tab and blank between the words) instantiates `double_precision` -/
+example : firstMatch (defaultCfg.env #[68, 111, 117, 98, 108, 101, 9, 32, 112, 114, 101, 99, 105, 115, 105, 111, 110, 59])
+    defaultCfg.rules 0 = some (.tok T.Builtin, 0 + 6 + 2 + 9) :=
+  double_precision _ 0 [] [68, 111, 117, 98, 108, 101] [9, 32] [112, 114, 101, 99, 105, 115, 105, 111, 110] [59] rfl rfl (by decide)
+    (by decide) (by decide) (by decide) (by decide +kernel) (by decide +kernel)
 
 end Sql.C14
